@@ -1089,6 +1089,12 @@ def run_one(prop, run_seed, run_index, cfg):
             ops, m = lensgen.gen_lens(ch, feats, harsh=ch.chance(0.2),
                                       max_surf=8)
             meta = {'n': m['nsurf'] + 2}
+            if ch.side('np0d-radii').chance(0.15):
+                # radii handed over as 0-d numpy arrays
+                for o in ops:
+                    if o.get('op') == 'add_surface' and \
+                            o.get('stype', 'standard') == 'standard':
+                        o['np0d'] = True
             if ch.chance(0.12):
                 # a paraboloid up front (Newtonian style): the quadratic of
                 # the intersection degenerates for axis-parallel rays
